@@ -441,7 +441,7 @@ def gen(rng, tier):
             reps = 1 if quick else 4
         else:
             lengths = [0, 1, 2, 3, 4, 5]
-            reps = (3 if quick else 30) if not big else 4
+            reps = (8 if quick else 40) if not big else 4
         for _ in range(reps):
             for n in lengths:
                 mode = rng.randrange(4)
@@ -487,7 +487,7 @@ def gen(rng, tier):
         yield 'multi_pairing', C.head() + [[0]] + [C.pair_arg(0, 1), C.pair_arg(1, 0), C.pair_arg(0, 0)], tag + '/all_identity'
         yield 'multi_miller_loop', C.head() + [[0]] + [C.pair_arg(1, 1)], tag + '/generators'
         # g2_prepare / g1_prepare
-        k = (3 if quick else 10) if big else (4 if quick else 40)
+        k = (3 if quick else 10) if big else (8 if quick else 40)
         for t, ct in [(0, 'Q0'), (1, 'gen'), (2, '2'), (C.r - 1, 'r-1')] + [nz_scalar(rng, C.r) for _ in range(k)]:
             yield 'g2_prepare', C.head() + [[0], C.g2_arg(t)], tag + '/' + ct
         if not is_bw6:
@@ -503,7 +503,7 @@ def gen(rng, tier):
                ([0] * h + [rng.randrange(p) for _ in range(h)], 'c0_zero')]
         if not is_bw6:
             els = [([0] * D, 'zero')] + els
-        nd = (3 if quick else 20) if big else (8 if quick else 120)
+        nd = (3 if quick else 20) if big else (12 if quick else 120)
         els += [([rng.randrange(p) for _ in range(D)], 'dense') for _ in range(nd)]
         for v, cl in els:
             yield 'final_exp', C.head() + [[0], v], tag + '/' + cl
@@ -591,28 +591,35 @@ def nontrivial(case, out):
 
 def xcheck_ok(case):
     # a pairing is ~3*10^4 multiplications mod a 254..381-bit prime: minutes per case under vm_compute
-    # on stdlib Z.  Only the law-level dispatch is re-evaluated in the kernel (see NOTES.md).
-    return case['op'] in LAW_OPS
+    # on stdlib Z.  Only the law-level dispatch and the (cheap) MNT G1Prepared::from cases are re-evaluated in
+    # the kernel (see NOTES.md).
+    return case['op'] in LAW_OPS or case['op'] == 'g1_prepare'
 
 
 XCHECK = {'quick': 14, 'thorough': 28}
 RULE = ('model-level: engines bls12_381 (curves/ and test-curves/), bls12_377, bn254 x list lengths 0,1,3,4,5,8,9 x '
         'scalars {0,1,2,r-1,random} on both generators x identities interleaved x input forms (affine, projective, '
-        'prepared, prepare_g1/g2); final_exp on zero/one/-1/subfield/half-zero/dense elements; g2_prepare on '
+        'prepared, prepare_g1/g2); mnt4_298, mnt6_298 (753-bit variants: thorough) x lists 0..5 with the identity in either '
+        'slot at every position; bw6_761 (bw6_767: thorough) x lists 0,1,3,4,5,8,9 and surviving-pair counts at the chunk '
+        'thresholds; final_exp on zero/one/-1/subfield/half-zero/dense elements; g2_prepare / g1_prepare on '
         'identity/generator/multiples.  law-level: every engine x the same scalar classes.  non-trivial = law op, or '
         'some operand coordinate is non-zero; distinct = distinct case lines')
 TRUSTED = ['input construction in prop.py (affine scalar multiples of the dumped generators): both sides receive the same points',
-           'C02 tower model (coq/C02) for Fp2/Fp6/Fp12 arithmetic, C15 model of find_naf (imported, frozen)',
-           'law-level ops: the relation is evaluated by the Rust public API (PairingOutput ==, +, *); the model side is the constant specification']
-ASSUMPTIONS = ['default features (no parallel): cfg_chunks_mut! = chunks_mut',
+           'C02 tower model (coq/C02) for Fp2/Fp3/Fp4/Fp6/Fp12 arithmetic, C15 model of find_naf (imported, frozen)',
+           'law-level ops: the relation is evaluated by the Rust public API (PairingOutput ==, +, *); the model side is the constant specification',
+           'coq/C06/CurveConsts.v is generated by pre() from the dumped constants; the cofactor witnesses c in it are checked by the kernel (CurveFacts.v)']
+ASSUMPTIONS = ['default features (no parallel): cfg_chunks_mut! = chunks_mut, cfg_into_iter! = into_iter',
                'prime-field arithmetic is Z mod p (C01 covers the Montgomery representation)']
 HYPOTHESES = ['tate_additive_l / tate_additive_r (LawProofs.v): the mathematical reduced (optimal) ate pairing is additive in each '
               'argument (divisor theory / Weil reciprocity; not formalisable with the installed libraries); that the model value is '
               'this pairing is NOT proved (bilinear_partial)',
               'cgroup one mul inv U: commutative-group laws of the units of the target field (and of G1, G2 in LawProofs.v)',
               'cyclotomic-subgroup operation specifications conj_Cy, conj_U, cyc_sq_spec, frob_spec, expx_spec / exp_neg_x_spec / '
-              'exp_w1_spec / exp_w0_spec / exp_m_spec / exp_d1_spec / exp_d2_spec, tinv_spec, Cy closed under mul/inv: premises of the '
-              'exponent-chain theorems (C02: quad_cyclotomic_inverse_spec; gs_square_partial, frobenius_is_pow_partial, exp_loop_naf_spec)',
+              'exp_w1_spec / exp_w0_spec / exp_m_spec / exp_d1_spec / exp_d2_spec, tsq_spec, tinv_spec, Cy closed under mul/inv: premises of the '
+              'exponent-chain theorems incl. bw6_761_hard_exponent (C02: quad_cyclotomic_inverse_spec; gs_square_partial, frobenius_is_pow_partial, exp_loop_naf_spec)',
               'tmul_assoc, tmul_comm, tmul_1_l, tsq_is_mul, ell_is_mul (mul_by_014_is_mul / mul_by_034_is_mul), conj_mul, conj_one: '
-              'field-arithmetic premises of the multi-equals-product theorems (C02_zp_fp12_mul, _square, _mul_by_014, _mul_by_034, '
-              'C02_quadops_ring establish them for the tower over Z_p)']
+              'field-arithmetic premises of the generic multi-equals-product theorems; DISCHARGED for the towers over Z_p in Tower12Zp.v / MntZp.v '
+              '(C06_*_zp theorems: only fp2_consts_ok / fp6a_consts_ok / fp3_consts_ok on the constants remain, Example C06_ex_consts_zp)',
+              'BW6 (Bw6Proofs.v): additionally frob1_mul, frob1_one (Frobenius is a ring endomorphism: C02 quad/cubic_frobenius_mul under the table '
+              'conditions), cinv_mul, cinv_one (cyclotomic_inverse of a product of non-zero elements: no zero divisors, i.e. primality of p and '
+              'irreducibility of the tower polynomials) -- field facts, not discharged']
